@@ -242,6 +242,9 @@ class Norm:
         return c.number()
 
     # -- instruction level
+    def regroup(self, groups):
+        return groups
+
     def parse(self, mn, optoks, side):
         return [self.operand(t, side, mn) for t in optoks]
 
@@ -258,7 +261,7 @@ class Norm:
         if not mn:
             raise Unparsed("no mnemonic")
         rest = self.ppci_pre(mn, rest)
-        groups = split_operands(rest, self.soft_split)
+        groups = self.regroup(split_operands(rest, self.soft_split))
         ops = self.parse(mn, groups, "ppci")
         prov = [frozenset(t[2] for t in g if t[2] is not None) for g in groups]
         if len(prov) != len(ops):
@@ -296,7 +299,7 @@ class Norm:
             if not toks or toks[0][0] != "w":
                 raise Unparsed("no mnemonic in %r" % text)
             mn = toks[0][1]
-            groups = split_operands(toks[1:], False)
+            groups = self.regroup(split_operands(toks[1:], False))
             ops = self.parse(mn, groups, "ref")
             mn, ops = self.ref_canon(mn, ops)
             out.append(self.finish(mn, ops))
@@ -492,6 +495,13 @@ class RiscvNorm(Norm):
                 out.append(remake(a, "li", [a[1][0], val]))
                 i += 2
                 continue
+            if b is not None and a[0] == "lui" and b[0] == "li" and len(a[1]) == 2 and len(b[1]) == 2 \
+                    and isinstance(a[1][1], int) and isinstance(b[1][1], int) and a[1][0] == b[1][0] == X0:
+                # rd = x0: the addi half already reads 'li x0, lo' (addi x0, x0, lo)
+                val = ((a[1][1] << 12) + signed(b[1][1], 32)) & 0xFFFFFFFF
+                out.append(remake(a, "li", [X0, val]))
+                i += 2
+                continue
             out.append(a)
             i += 1
         return out
@@ -657,6 +667,19 @@ class ArmNorm(Norm):
             c.next()
             if c.accept("g", "!"):
                 r = ("wb", r)
+            k2, v2 = c.peek()
+            if k2 == "w" and v2 in _ARM_SHIFTS and r[0] == "r":
+                c.next()
+                k3, v3 = c.peek()
+                if k3 == "w":
+                    amount = self.reg(v3)
+                    if amount is None:
+                        raise Unparsed("shift register")
+                    c.next()
+                else:
+                    amount = c.number()
+                if not (v2 == "lsl" and amount == 0):
+                    r = ("sh", r, v2, amount)
             if not c.done():
                 raise Unparsed("trailing tokens")
             return r
@@ -665,24 +688,11 @@ class ArmNorm(Norm):
             raise Unparsed("trailing tokens")
         return n
 
-    def parse(self, mn, optoks, side):
-        ops = [self.operand(t, side, mn) for t in optoks]
-        # fold a trailing shift into the register before it
-        if len(ops) >= 2 and isinstance(ops[-1], tuple) and ops[-1][0] == "shift":
-            sh = ops.pop()
-            rm = ops[-1]
-            if not (isinstance(rm, tuple) and rm[0] == "r"):
-                raise Unparsed("shift without register")
-            if sh[2] == 0 and sh[1] == "lsl":
-                pass
-            else:
-                ops[-1] = ("sh", rm, sh[1], sh[2])
-        return ops
-
-    def ppci(self, ins):
-        seq = Norm.ppci(self, ins)
-        # a shifted register swallowed one ppci operand: provenance lists no longer line up -> recompute conservatively
-        return seq
+    def regroup(self, groups):
+        # 'Rm, lsl #n' is one operand: a trailing shift group joins the register group before it
+        if len(groups) >= 2 and groups[-1] and groups[-1][0][0] == "w" and groups[-1][0][1] in _ARM_SHIFTS:
+            groups = groups[:-2] + [groups[-2] + groups[-1]]
+        return groups
 
     def ppci_alias(self, mn, ops):
         m = _arm_mnemonic(mn)
@@ -918,6 +928,8 @@ class X86Norm(Norm):
     def ref_canon(self, mn, ops):
         if mn in _X86_STRING and all(isinstance(o, tuple) and o[0] == "m" for o in ops):
             return mn, []
+        if mn in ("shl", "sal", "shr", "sar", "rol", "ror", "rcl", "rcr") and len(ops) == 2 and ops[1] == 1:
+            ops = ops[:1]           # objdump spells the D0/D1 shift-by-one forms with an explicit ', 1'; LLVM and ppci do not
         if mn in ("fld", "fst", "fstp", "fild", "fist", "fistp", "fadd", "fsub", "fmul", "fdiv") and len(ops) == 1 \
                 and isinstance(ops[0], tuple) and ops[0][0] == "m" and ops[0][5] in _X87_SUFFIX:
             mn = mn + _X87_SUFFIX[ops[0][5]]        # AT&T operand-size suffix, which ppci prints
@@ -1146,9 +1158,12 @@ class Msp430Norm(Norm):
         # R3 read as a source operand in register mode is the constant generator: the constant 0 (SLAU049 3.2.4, table 3-2);
         # X(PC) is the symbolic mode, X(SR) the absolute mode
         nsrc = len(out) - 1 if len(out) == 2 else (1 if len(out) == 1 and mn in ("rrc", "rra", "swpb", "sxt", "push", "call") else 0)
+        cg = {("m", "ind", _MSP_CG): 2, ("m", "ind+", _MSP_CG): -1, ("m", "ind", _MSP_SR): 4, ("m", "ind+", _MSP_SR): 8}
         for i in range(nsrc):
             if out[i] == _MSP_CG:
                 out[i] = 0
+            elif out[i] in cg:
+                out[i] = cg[out[i]]          # @R3 = #2, @R3+ = #-1, @R2 = #4, @R2+ = #8 (constant generators, table 3-2)
         for i, o in enumerate(out):
             if isinstance(o, tuple) and o[:2] == ("m", "idx") and o[2] == _MSP_PC:
                 out[i] = ("m", "sym", o[3])
@@ -1157,13 +1172,12 @@ class Msp430Norm(Norm):
         return mn + size, out
 
     def generalise_seq(self, pseq):
-        """ppci accepts @Rn, @Rn+ and X(Rn) on the constant generator registers, where the architecture defines constants instead
-        (and, for X(R3), no extension word)."""
+        """ppci accepts the indexed mode X(R3) as a source; the architecture defines As=01 on R3 as the constant #1 WITHOUT an
+        extension word, so the word ppci emits for X is executed as the next instruction."""
         for mn, ops, prov in pseq:
             for o in ops[:-1] if len(ops) == 2 else ops:
-                if isinstance(o, tuple) and o[0] == "m" and ((o[1] in ("ind", "ind+") and o[2] in (_MSP_SR, _MSP_CG))
-                                                             or (o[1] == "idx" and o[2] == _MSP_CG)):
-                    return "constant-generator-register/addressing-mode-accepted-on-r2-r3"
+                if isinstance(o, tuple) and o[:2] == ("m", "idx") and o[2] == _MSP_CG:
+                    return "indexed-source-on-r3/extension-word-emitted-for-constant-generator"
         return None
 
 
